@@ -438,8 +438,8 @@ pub fn eval(e: &E, env: &Env) -> R {
             let Some((x, xs)) = as_int(&xv, true)? else { return Err(EvalErr::Type("slice operand")) };
             let hi = to_usize(&eval(hi, env)?)?;
             let lo = to_usize(&eval(lo, env)?)?;
-            if hi + 1 < lo {
-                return Err(EvalErr::SliceRange);
+            if hi < lo {
+                return Err(EvalErr::SliceRange); // inverted bounds, also when only by one (`x[3:4]`)
             }
             if matches!(xv, V::Str { .. }) && hi + 1 > xs.unwrap_or(0) {
                 return Err(EvalErr::Unspecified("slice of a string beyond its size"));
